@@ -151,8 +151,9 @@ impl Interp {
         // the model's decision for data-dependent branches, and a guard against undecidable comparisons
         if let Step::IfGt { cond, elem, thr, .. } = s {
             let mv = self.m.node_of(*cond).t.vals[*elem].v;
-            if (mv - thr).abs() < 1e-6 * (1.0 + thr.abs()) {
-                return Err(HOutcome::Discard("branch value within 1e-6 of the threshold".into()));
+            let vm = self.m.node_of(*cond).t.vals[*elem].vm;
+            if (mv - thr).abs() < (if IS_F32 { 1e-3 } else { 1e-6 }) * (1.0 + vm.abs() + thr.abs()) {
+                return Err(HOutcome::Discard("branch value within rounding noise of the threshold".into()));
             }
             if *elem >= self.ex.get(*cond).values().len() {
                 return Err(HOutcome::Discard("the forward result does not have the shape the case was typed with".into()));
